@@ -77,6 +77,15 @@ def _build_frame(fs):
   if k in ("udp", "tcp", "icmp", "ipother"):
     sip, dip = fs["sip"], fs["dip"]
     frag = fs.get("frag")
+    if k == "udp" and fs.get("zsum") and len(pay) >= 2:
+      # payload tuned so that the datagram's checksum computes to zero (which
+      # RFC 768 has transmitted as 0xffff; a zero field means "none")
+      body0 = b"\0\0" + pay[2:]
+      ln = 8 + len(body0)
+      s0 = (~F.csum(F._pseudo(sip, dip, 17, ln)
+                    + struct.pack("!HHHH", fs["sport"], fs["dport"], ln, 0)
+                    + body0)) & 0xffff
+      pay = struct.pack("!H", (0xffff - s0) & 0xffff) + pay[2:]
     if k == "udp":
       l4 = F.udp(sip, dip, fs["sport"], fs["dport"], pay)
       if frag and frag[0] and frag[1] == 0 and fs.get("fragcut"):
